@@ -482,3 +482,22 @@ def run(model, col, tier):
     col.check(most <= 1 or not adds, "R07.9", "nsl/Compiler.py::Compile finalises the wasm module once", f"Finalize (which adds to the module: {adds[:3]}) is called at most once per compilation",
               f"a path of Compile calls Finalize {most} times; each call adds to the module again ({adds[:3]}): the emitted binary has a second table / duplicate entries and does not validate", "nsl/Compiler.py", comp79)
     col.check(most >= 1, "R07.9", "nsl/Compiler.py::Compile finalises the wasm module", "the returned module went through Finalize", "Compile never finalises the wasm module", "nsl/Compiler.py", comp79)
+    # ---------------- R07.10 export names are unique because they are the IR function names ----------
+    # (IR function names are unique in a module: raw names of exported functions, mangled names of the others; a name derived
+    # from them by cutting or stripping can repeat, and a module with two exports of one name is invalid)
+    from ..sem import local_env as _le710, resolve as _rs710
+
+    nexp = 0
+    for fn_ in [x for x in ast.walk(model.file(GEN).tree) if isinstance(x, ast.FunctionDef)]:
+        inner_ = {id(y) for d_ in ast.walk(fn_) if isinstance(d_, ast.FunctionDef) and d_ is not fn_ for y in ast.walk(d_)}
+        env_ = _le710(fn_, allow_impure=True)
+        pnames = {a.arg for a in fn_.args.args}
+        for c in ast.walk(fn_):
+            if id(c) in inner_ or not (isinstance(c, ast.Call) and last_attr(c) == "Export" and len(c.args) >= 2):
+                continue
+            nexp += 1
+            nm_ = _rs710(c.args[1], env_)
+            col.check(isinstance(nm_, ast.Name) and nm_.id in pnames, "R07.10", f"{GEN}::{fn_.name} exports a function under its own name", "Export(index, <the function's name as given>)",
+                      f"the export name is `{' '.join(unparse(nm_).split())[:60]}`, computed from the function's name: two functions whose names differ only in the part cut off (overloads) "
+                      "are exported under one name, which makes the module invalid", GEN, c)
+    col.floor("R07.10", "export registrations in the generator", nexp, 1)
